@@ -219,8 +219,11 @@ def build(S):
         S.contract("spline-wiring", FN_MFG, run_spline, shape="one evaluation point inside the domain; 3x4 node grid")
         S.contract("spline-wiring[MLA]", FN_HMLA, run_spline_mla, shape="nx=1, ny=1, four locations")
         S.contract("dct-wiring", FN_MFG, run_dct_wiring, shape="one evaluation point")
-        from . import C18_dct
+        from . import C03, C18_dct
 
+        # fpol / fpolprime of the tokamak class: fpolprime is the psi-derivative of fpol for either orientation of the psi profile
+        S.under_contract(C03.FN_FPOL, C03.FN_FPP)
+        S.contract("fpol/fpolprime/pressure/Bt_axis", C03.FN_FPP, C03.run_profiles, shape="scalar")
         C18_dct.add(S)
 
 
